@@ -8,7 +8,8 @@ THEOREMS = ["C13_writer_is_sha256", "C13_constants_are_fips", "C13_nist_vectors"
             "C13_frame_bytes_distinct", "C13_property_order", "C13_mapping_order", "C13_format_order",
             "C13_metadata_invisible", "C13_hash32_property_order", "C13_refuted_alias",
             "C13_equal_streams_accept_the_same_values", "C13_disagreeing_validators_are_hashed_from_different_bytes",
-            "C13_framing_is_a_prefix_code", "C13_injectivity_nonvacuous"]
+            "C13_framing_is_a_prefix_code", "C13_injectivity_nonvacuous", "C13_active_names_restored",
+            "C13_hash256_terminates_on_recursive_types", "C13_termination_nonvacuous"]
 IMPORTS = "From Beff Require Import Model.Cases Proofs.C13Inj."
 
 
